@@ -57,10 +57,14 @@ func selfcomp(id string, op Op, ps []Pos, o Opts, pending bool) {
 	sameState(id, a, st2.E)
 }
 
-func H_C19_selfcomp_delegate()   { selfcomp("C19.selfcomp.delegate", OpDelegate, shape3("shape"), Opts{Rewards: true}, false) }
-func H_C19_selfcomp_undelegate() { selfcomp("C19.selfcomp.undelegate", OpUndelegate, shapeActor("shape"), Opts{Rewards: true}, false) }
-func H_C19_selfcomp_redelegate() { selfcomp("C19.selfcomp.redelegate", OpRedelegate, shapeActor("shape"), Opts{Rewards: true}, false) }
-func H_C19_selfcomp_claim()      { selfcomp("C19.selfcomp.claim", OpClaim, shapeActor("shape"), Opts{Rewards: true}, false) }
+func H_C19_selfcomp_delegate()   { selfcomp("C19.selfcomp.delegate", OpDelegate, shape3("shape"), Opts{Rewards: true, BigPool: true}, false) }
+func H_C19_selfcomp_undelegate() { selfcomp("C19.selfcomp.undelegate", OpUndelegate, shapeActor("shape"), Opts{Rewards: true, BigPool: true}, false) }
+func H_C19_selfcomp_redelegate() { selfcomp("C19.selfcomp.redelegate", OpRedelegate, shapeActor("shape"), Opts{Rewards: true, BigPool: true}, false) }
+func H_C19_selfcomp_claim()      { selfcomp("C19.selfcomp.claim", OpClaim, shapeActor("shape"), Opts{Rewards: true, BigPool: true}, false) }
+// first reward deposit in two denominations at once: the order of the new history entries must not depend on a map
+func H_C19_selfcomp_claim2() {
+	selfcomp("C19.selfcomp.claim2", OpClaim, []Pos{{0, 0, 0}, {1, 0, 0}}, Opts{Rewards: true, TwoRewards: true, BigPool: true}, false)
+}
 func H_C19_selfcomp_slash()      { selfcomp("C19.selfcomp.slash", OpSlash, shapeActor("shape"), Opts{}, true) }
 func H_C19_selfcomp_endblock() {
 	selfcomp("C19.selfcomp.endblock", OpEndBlock, shapeActor("shape"), Opts{TakeRate: true}, true)
